@@ -883,6 +883,27 @@ def _spsdk_on_corrupted(fam, rev, mem, bad_bytes, n_expected):
     return "clean", "", img
 
 
+def install_monitors(ctx):
+    """Safety net only: SPSDK's verifier zero-extends an image to the size its (corrupted) entry names before hashing it - a flipped
+    image count or size can ask for gigabytes.  The address space of a worker is capped so that such a request fails inside SPSDK
+    (counted as 'reported by crash') instead of exhausting the machine."""
+    import resource
+
+    try:
+        resource.setrlimit(resource.RLIMIT_AS, (3 << 30, 3 << 30))
+    except (ValueError, OSError):
+        pass
+
+
+def _flip_pos(rng, region):
+    """Random byte of a region.  The top byte of an image entry's offset / size is spared: SPSDK's verifier zero-extends the
+    image to the (then multi-GiB) size before hashing it, which only exhausts the machine's memory."""
+    s, e, name = region[0], region[1], region[2]
+    if name in ("image-entry.size", "image-entry.offset"):
+        e -= 1
+    return rng.randrange(s, e)
+
+
 def flip_sweep(ctx, spec, data, rep, nflips, dense=False):
     """Single-bit corruptions of authenticated bytes: SPSDK (parse + verify of the corrupted file) and the walker must both report."""
     from spsdk.exceptions import SPSDKError
@@ -908,17 +929,21 @@ def flip_sweep(ctx, spec, data, rep, nflips, dense=False):
             for r in by_name[nm][:per]:
                 picks.append((r, r[0], rng.randrange(8)))
                 if r[1] - r[0] > 1:
-                    picks.append((r, rng.randrange(r[0], r[1]), rng.randrange(8)))
+                    picks.append((r, _flip_pos(rng, r), rng.randrange(8)))
     else:
         for _ in range(nflips):
             r = _pick(rng, by_name[_pick(rng, names)])
-            picks.append((r, rng.randrange(r[0], r[1]), rng.randrange(8)))
+            picks.append((r, _flip_pos(rng, r), rng.randrange(8)))
     offs = {c["index"]: c["off"] for c in rep["containers"]}
     tally: dict = {}
     crashes = set()
     for (s, e, name, ci), pos, bit in picks:
         if name == "container-header.flags" and pos == offs[ci] + 4 and (data[pos] ^ (1 << bit)) & 3 == 0:
             continue  # the corrupted header would claim "not signed": only a life-cycle policy, no verifier, can object
+        if name == "container-header.image-count" and not data[pos] & (1 << bit):
+            # a larger count makes SPSDK read key material as image entries and zero-extend "images" of random 32-bit sizes
+            # (observed: 3.4 GiB for one flip); only decreasing flips are driven
+            bit = max(b for b in range(8) if data[pos] & (1 << b))
         bad_bytes = bytearray(data)
         bad_bytes[pos] ^= 1 << bit
         bad_bytes = bytes(bad_bytes)
@@ -1108,7 +1133,11 @@ def _run_cli(case, ctx, info, wdir, spec=None):
             if not (c["index"] >= 1 and r[2] in ("container-header.version", "container-header.length", "container-header.tag"))]
     for _ in range(2):
         s, e, name = _pick(rng, regs)
-        pos, bit = rng.randrange(s, e), rng.randrange(8)
+        pos, bit = _flip_pos(rng, (s, e, name)), rng.randrange(8)
+        if name == "container-header.image-count" and not data[pos] & (1 << bit):
+            bit = max(b for b in range(8) if data[pos] & (1 << b))  # see flip_sweep: only decreasing flips
+        if name == "container-header.flags" and (pos - s) == 0 and (data[pos] ^ (1 << bit)) & 3 == 0:
+            continue
         b2 = bytearray(data)
         b2[pos] ^= 1 << bit
         bp = os.path.join(wdir, "bad.bin")
